@@ -44,7 +44,7 @@ def s16(v):
 
 class T68k(object):
     name = '68000'
-    refs = ['BR', 'BSR', 'ABS', 'DATW', 'DATL']
+    refs = ['BR', 'BSR', 'ABS', 'DATW', 'DATL', 'ADDQ']
     refs_org = ['BR', 'ABS', 'DATW', 'PCR']
     gaps = [2, 126, 128, 130]
     org = 0x7f00
@@ -59,7 +59,8 @@ class T68k(object):
 
     def src(self, kind, lab):
         return {'BR': 'bra ' + lab, 'BSR': 'bsr ' + lab, 'ABS': 'move.w %s,d0' % lab, 'DATW': 'dc.w ' + lab, 'DATL': 'dc.l ' + lab,
-                'PCR': 'lea %s(pc),a0' % lab, 'ODD': 'dc.b 1', 'NOP': 'nop'}[kind]
+                'PCR': 'lea %s(pc),a0' % lab, 'ODD': 'dc.b 1', 'NOP': 'nop',
+                'ADDQ': 'addq.w #%s-*,d0' % lab}[kind]        # a 3-bit immediate computed from a symbol: 1..8 bytes ahead, or a range error
 
     def gap(self, g):
         return 'ds.b %d' % g
@@ -87,6 +88,12 @@ class T68k(object):
             if (b, mem[a + 1]) == (0x30, 0x39):
                 return 6, int.from_bytes(bytes(mem[a + 2 + i] for i in range(4)), 'big'), 0xffffffff
             raise ValueError('move.w opcode')
+        if kind == 'ADDQ':
+            w = (b << 8) | mem[a + 1]
+            if w & 0xf1ff != 0x5040:
+                raise ValueError('addq.w #n,d0 opcode')
+            n = (w >> 9) & 7
+            return 2, (a + (n or 8)) & 0xffffffff, 0xffffffff
         if kind == 'PCR':
             if (b, mem[a + 1]) != (0x41, 0xfa):
                 raise ValueError('lea d16(pc) opcode')
@@ -288,7 +295,7 @@ class T8086(T6502):
 
 
 TARGETS = {'68000-pad1': T68k(1), '68000-pad0': T68k(0), '6502': T6502(), '6809': T6809(), '8086': T8086(), '6811': T6811()}
-RANGE_LIMITED = {'BNE', 'BRA', 'JNZ', 'PCR', 'BRSETD', 'BRCLRX', 'BRSETY'}      # short-only branches: a documented 'jump distance too big' error is legitimate
+RANGE_LIMITED = {'BNE', 'BRA', 'JNZ', 'PCR', 'BRSETD', 'BRCLRX', 'BRSETY', 'ADDQ'}      # short-only branches: a documented 'jump distance too big' error is legitimate
 
 
 # ---- programs -------------------------------------------------------------------------------------
@@ -579,7 +586,7 @@ def evaluate(case):
                       '%s after %d passes (digests %s) on %s' % ('pass livelock: symbol table repeats with Repass set' if live else 'no convergence', len(tr), digs[-3:], d), transitions=len(tr), states=states)
     if o.rc != 0:
         msg = (o.out + o.err).decode('latin-1')
-        if 'too big' in msg or 'distance' in msg:
+        if 'too big' in msg or 'distance' in msg or (('range 1..8' in msg or 'range overflow' in msg or 'range underflow' in msg) and any(x[0] == 'R' and x[1] == 'ADDQ' for x in case['body'])):
             if any(x[0] == 'R' and x[1] in RANGE_LIMITED for x in case['body']):
                 return core.R(True, 'range-error', nontrivial=False, transitions=len(tr), states=states)
         if 'odd' in msg or 'align' in msg:
